@@ -823,7 +823,7 @@ def stepReg (st : DSt) (r : Report) (ln : Nat) (cmd obs : List String) : Option 
       let m := mean.getD i 0
       let v := var.getD i 0
       Float.abs (m - c * p) ≤ 10.0 * sd / Float.sqrt (Float.ofNat reps) + 1.0
-        && (p * c < 50.0 || (1.0 - p) * c < 50.0 || (v ≤ 2.5 * sd * sd + 4.0 && v ≥ 0.4 * sd * sd - 4.0)))
+        && (sd * sd < 100.0 || (v ≤ 1.7 * sd * sd && v ≥ 0.55 * sd * sd)))
     some (st, specCheck r st ln "c07.moments" ok "mean = c p, variance ~ c p (1-p)" (toString (mean.take 8) ++ " " ++ toString (var.take 8)))
   | ["qvreg"] => do
     let q ← st.q
